@@ -351,6 +351,10 @@ fn cmd_fault(m: &HashMap<String, String>) -> i32 {
     let reopen_heavy = m.contains_key("reopen-heavy");
     let read_faults = m.contains_key("read-faults");
     fault::READ_FAULTS.store(read_faults, std::sync::atomic::Ordering::Relaxed);
+    // block cache / table cache of two entries: compaction inputs and read paths have to OPEN
+    // their tables (open-for-read and size calls become fault positions of compactions)
+    let small_caches = m.contains_key("small-caches");
+    common::set_cache_cap(if small_caches { 2 } else { 0 });
     let only: Option<(u64, bool)> = m
         .get("idx")
         .and_then(|i| i.parse().ok())
@@ -402,7 +406,7 @@ fn cmd_fault(m: &HashMap<String, String>) -> i32 {
                 let _ = std::fs::write(
                     &rpath,
                     serde_json::to_string(&json!({"driver": "fault", "seed": seed, "nops": nops2,
-                        "large": large2, "reopen_heavy": rh2, "read_faults": rf2, "idx": idx,
+                        "large": large2, "reopen_heavy": rh2, "read_faults": rf2, "small_caches": small_caches, "idx": idx,
                         "sticky": sticky}))
                     .unwrap(),
                 );
@@ -410,7 +414,7 @@ fn cmd_fault(m: &HashMap<String, String>) -> i32 {
                 res.push(json!({"seed": 0, "wseed": seed, "idx": idx, "sticky": sticky,
                     "status": "hang", "fired": 1, "events": lines.len(),
                     "trace": tpath.to_string_lossy(), "replay": rpath.to_string_lossy(),
-                    "nops": nops2, "large": large2, "reopen_heavy": rh2, "read_faults": rf2,
+                    "nops": nops2, "large": large2, "reopen_heavy": rh2, "read_faults": rf2, "small_caches": small_caches,
                     "panics": Vec::<String>::new()}));
                 let _ = std::fs::write(
                     out2.join("results.json"),
@@ -465,7 +469,7 @@ fn cmd_fault(m: &HashMap<String, String>) -> i32 {
                     std::fs::write(
                         &rpath,
                         serde_json::to_string(&json!({"driver": "fault", "seed": seed, "nops": nops,
-                            "large": large, "reopen_heavy": reopen_heavy, "read_faults": read_faults, "idx": idx, "sticky": sticky}))
+                            "large": large, "reopen_heavy": reopen_heavy, "read_faults": read_faults, "small_caches": small_caches, "idx": idx, "sticky": sticky}))
                         .unwrap(),
                     )
                     .unwrap();
@@ -473,7 +477,7 @@ fn cmd_fault(m: &HashMap<String, String>) -> i32 {
                 results.lock().push(json!({"seed": run_no, "wseed": seed, "idx": idx, "sticky": sticky,
                     "status": o.status, "fired": o.fired, "events": o.lines.len(),
                     "trace": out.join(format!("trace_{:04}.ndjson", chunk)).to_string_lossy(),
-                    "replay": rpath.to_string_lossy(), "nops": nops, "large": large, "reopen_heavy": reopen_heavy, "read_faults": read_faults,
+                    "replay": rpath.to_string_lossy(), "nops": nops, "large": large, "reopen_heavy": reopen_heavy, "read_faults": read_faults, "small_caches": small_caches,
                     "panics": Vec::<String>::new()}));
                 lines.extend(o.lines);
                 *shared_lines.lock() = lines.clone();
